@@ -47,6 +47,7 @@ class Ctx(object):
         self.extra = {}
         self.replayers = {}        # obligation name pattern -> callable(ctx, ob, model) -> dict
         self.audits = []           # (name, ok, detail)
+        self.native_crosschecks = []   # (replay script, payload, description): run in the thorough tier
         self.explorations = []
         self.explore_stats = {}
         self.t0 = time.time()
@@ -279,6 +280,22 @@ def main(argv=None):
         ctx.stats = stats
         if hasattr(mod, 'after_discharge'):
             mod.after_discharge(ctx)
+        if tier == 'thorough':
+            # bounded CPython cross-checks registered by the property (labelled bounded, never counted as
+            # proof): the native search of the replay harness run unconditionally.  A failing input found
+            # natively while every obligation was proved means the engine or a model is unsound.
+            from . import replay as _replay
+            any_refuted = any(o.verdict == 'refuted' for o in ctx.obligations)
+            for script, payload, what in getattr(ctx, 'native_crosschecks', []):
+                r = _replay._run_native(script, payload, timeout=900)
+                ok = 'error' not in r and not r.get('reproduced')
+                ctx.bounded.append({'what': 'CPython cross-check: ' + what, 'bound': r.get('bound', ''),
+                                    'evaluations': r.get('evaluations', 0), 'ok': ok,
+                                    'failures': (r.get('failures') or [r.get('error')])[:3] if not ok else []})
+                if not ok and not any_refuted:
+                    ctx.audits.append(('native cross-check %s' % script, False,
+                                       'fails natively although every obligation was proved: %r'
+                                       % ((r.get('failures') or [r])[:2],)))
     except (Unsupported, CheckerError) as e:
         print('CHECKER-ERROR property=%s %s: %s' % (pid, e.__class__.__name__, e))
         traceback.print_exc()
